@@ -12,6 +12,8 @@ import (
 	"verifharness/internal/fw"
 	"verifharness/internal/run"
 	"verifharness/internal/xrand"
+	"runtime"
+	"syscall"
 )
 
 func tierN(tier string, quick, thorough int) int {
@@ -207,3 +209,42 @@ func auxLex(args []string) int {
 }
 
 func init() { fw.RegisterAux("lex", auxLex) }
+
+// aux prefixes <file> <from> <to> <step>: every prefix of the file in that range, one after another in this process,
+// with the user CPU time of each (triage helper for the CPU cap)
+func init() {
+	fw.RegisterAux("prefixes", func(args []string) int {
+		if len(args) < 4 {
+			return 2
+		}
+		b, err := os.ReadFile(args[0])
+		if err != nil {
+			return 2
+		}
+		var from, to, step int
+		fmt.Sscan(args[1], &from)
+		fmt.Sscan(args[2], &to)
+		fmt.Sscan(args[3], &step)
+		cpu := func() float64 {
+			var ru syscall.Rusage
+			_ = syscall.Getrusage(syscall.RUSAGE_SELF, &ru)
+			return float64(ru.Utime.Sec) + float64(ru.Utime.Usec)/1e6
+		}
+		worst := 0.0
+		for l := from; l < to && l < len(b); l += step {
+			c0 := cpu()
+			o := run.Exec(run.Single(b[:l]), false)
+			d := cpu() - c0
+			if d > worst {
+				worst = d
+			}
+			if d > 5 {
+				var ms runtime.MemStats
+				runtime.ReadMemStats(&ms)
+				fmt.Printf("prefix %d: %.1f CPU s, %s, heap %d MiB, gc cycles %d\n", l, d, o.Outcome, ms.HeapAlloc>>20, ms.NumGC)
+			}
+		}
+		fmt.Printf("worst %.1f CPU s\n", worst)
+		return 0
+	})
+}
